@@ -1,6 +1,6 @@
 (* C17 — property theorems only: each restates the full statement and is closed by the lemma proved in Proofs/. *)
 From Coq Require Import ZArith List Bool.
-From NPS Require Import ListAux PySlice NumpySem Scatter BuildIdx XorBroadcast View Index Assign Reduce Scan RaOps Heap Hash HashRun BitArr RLE RLEOps RLE2d DataClass RowsSpec AssignSpec MapSpec Denote RLEMisc BinaryProof RL2Proof RL2Col RL2Ravel RL2Elem RL2Argmax MatrixDecode ColProof RL2ColSum RL2ColCounts RL2Intervals RL2Range RL2RangeStep RL2RangeOpen RL2AnyProof.
+From NPS Require Import ListAux PySlice NumpySem Scatter BuildIdx XorBroadcast View Index Assign Reduce Scan RaOps Heap Hash HashRun BitArr RLE RLEOps RLE2d DataClass RowsSpec AssignSpec MapSpec Denote RLEMisc BinaryProof RL2Proof RL2Col RL2Ravel RL2Elem RL2Argmax MatrixDecode ColProof RL2ColSum RL2ColCounts RL2Intervals RL2Range RL2RangeStep RL2RangeOpen RL2AnyProof RL2AnyRows.
 Import ListNotations.
 Open Scope Z_scope.
 
@@ -217,6 +217,29 @@ Theorem C17_sweep_intervals :
        0 <= L -> decode bool (sweep St En L) = map (covered I) (ap 0 L 1).
 Proof. exact sweep_intervals. Qed.
 Print Assumptions C17_sweep_intervals.
+
+Theorem C17_col_any_correct :
+  forall (x : rl2) (L : Z),
+       r_len x = Some L ->
+       0 <= L ->
+       Forall (row_ok L) (combine (r_idx x) (r_val x)) ->
+       decode bool (RL2Any.col_any x) =
+       map
+         (fun p : Z =>
+          existsb (fun r : list Z * list Z => nth (Z.to_nat p) (row_dense L r) false)
+            (combine (r_idx x) (r_val x))) (ap 0 L 1).
+Proof. exact col_any_correct. Qed.
+Print Assumptions C17_col_any_correct.
+
+Theorem C17_col_any_matrix :
+  forall (M : list (list Z)) (L : Z),
+       M <> [] ->
+       1 <= L ->
+       Forall (fun r : list Z => zlen r = L) M ->
+       decode bool (RL2Any.col_any (from_matrix M)) =
+       map (fun p : Z => existsb (fun row : list Z => nz (nth (Z.to_nat p) row 0)) M) (ap 0 L 1).
+Proof. exact col_any_matrix. Qed.
+Print Assumptions C17_col_any_matrix.
 
 Theorem C17_col_range_row_is_start_to_end :
   forall (ev vs : list Z) (a b : Z),
